@@ -574,16 +574,30 @@ struct Runner
           continue;
         bool eq, ne, lt, expLt;
         bool expEq = hobj[s] == hobj[j];
+        // every operator through every access path: both handles mutable, the left one const, both const
+        // (the result must not depend on how the caller happens to hold the handles)
+        bool pathsAgree = true;
         if (isB(s)) {
+          const BP &cs = *hb[s];
+          const BP &cj = *hb[j];
           eq    = *hb[s] == *hb[j];
           ne    = *hb[s] != *hb[j];
           lt    = *hb[s] < *hb[j];
+          pathsAgree = (cs == *hb[j]) == eq && (cs == cj) == eq && (cs != *hb[j]) == ne && (cs != cj) == ne && (*hb[s] != cj) == ne && (cs < cj) == lt;
           expLt = std::less<Base *>()(rawB(hobj[s]), rawB(hobj[j]));
         } else {
+          const DP &cs = *hd[s - NB];
+          const DP &cj = *hd[j - NB];
           eq    = *hd[s - NB] == *hd[j - NB];
           ne    = *hd[s - NB] != *hd[j - NB];
           lt    = *hd[s - NB] < *hd[j - NB];
+          pathsAgree = (cs == *hd[j - NB]) == eq && (cs == cj) == eq && (cs != *hd[j - NB]) == ne && (cs != cj) == ne && (*hd[s - NB] != cj) == ne && (cs < cj) == lt;
           expLt = std::less<Derived *>()(rawD(hobj[s]), rawD(hobj[j]));
+        }
+        if (!pathsAgree) {
+          vh::violation("C08:compare:const-access-path-differs", std::string("==, != or < gives another result when a handle is held by const reference") +
+                                                                     " for handle slots " + std::to_string(s) + "," + std::to_string(j) + (expEq ? " (same pointee)" : " (different pointees)"), ctx());
+          failed = true;
         }
         std::string w = " for handle slots " + std::to_string(s) + "," + std::to_string(j) +
                         (expEq ? " (same pointee)" : " (different pointees)");
